@@ -2,6 +2,7 @@ import ProbLogModel.Generated.ArithTable
 import ProbLogModel.IsoArith
 import ProbLogModel.Builtins
 import ProbLogProofs.Lemmas.Arith
+import ProbLogProofs.Lemmas.BuiltinsC16
 /-!
 # C16 — arithmetic and term-inspection builtins match Yap/SWI semantics (property theorems only)
 
@@ -265,4 +266,173 @@ theorem C16_integer_float_yap (q : Rat) : py_integer_1 (.flt q) = .ok (.int (Iso
 theorem C16_float_integer_part (q : Rat) : py_float_integer_part_1 (.flt q) = .ok (.flt (Iso.floatIntegerPart q)) := by
   simp [py_float_integer_part_1, PyNum.toInt, PyNum.toFloat, PyNum.toRat, bind, Except.bind, ratTrunc_eq, Iso.floatIntegerPart]
 
+open ProbLogModel.Builtins ProbLogProofs.BuiltinLemmas
+
+
+/-! ## builtins: the model's solution list is the Prolog solution list -/
+
+/-- `between(+L, +H, -X)`: exactly the integers `L ≤ k ≤ H`, in ascending order, each once. -/
+theorem C16_between_enum (l h v : Int) :
+    ∃ ks : List Int, between (.int l) (.int h) (.var v) = .ok (ks.map fun k => [.int l, .int h, .int k]) ∧
+      (∀ k, k ∈ ks ↔ l ≤ k ∧ k ≤ h) ∧ ks.Pairwise (· < ·) := by
+  refine ⟨(List.range (h + 1 - l).toNat).map (fun (k : Nat) => l + (k : Int)), ?_, ?_, ?_⟩
+  · have hm : checkMode [Tm.int l, Tm.int h, Tm.var v] (modesOf "between") 0 = .ok 1 := rfl
+    simp [between, hm, bind, Except.bind, pure, Except.pure, intVal, List.map_map, Function.comp_def]
+  · intro k
+    simp only [List.mem_map, List.mem_range]
+    constructor
+    · rintro ⟨j, hj, rfl⟩; omega
+    · intro ⟨h1, h2⟩; exact ⟨(k - l).toNat, by omega, by omega⟩
+  · rw [List.pairwise_map]
+    exact List.Pairwise.imp (by intro a b hab; omega) List.pairwise_lt_range
+
+/-- `between(+L, +H, +X)` succeeds (once) iff `L ≤ X ≤ H`. -/
+theorem C16_between_check (l h x : Int) :
+    between (.int l) (.int h) (.int x) = .ok (if l ≤ x ∧ x ≤ h then [[.int l, .int h, .int x]] else []) := by
+  have hm : checkMode [Tm.int l, Tm.int h, Tm.int x] (modesOf "between") 0 = .ok 0 := rfl
+  by_cases h1 : l ≤ x <;> by_cases h2 : x ≤ h <;>
+    simp [between, hm, bind, Except.bind, pure, Except.pure, intVal, h1, h2]
+
+/-- `succ/2` on natural numbers: the solutions are exactly the pairs with `0 ≤ a ∧ b = a + 1` (three modes). -/
+theorem C16_succ (a b v : Int) :
+    succ (.var v) (.int b) = .ok (if 0 < b then [[.int (b - 1), .int b]] else []) ∧
+    succ (.int a) (.var v) = .ok (if 0 ≤ a then [[.int a, .int (a + 1)]] else []) ∧
+    succ (.int a) (.int b) = .ok (if 0 ≤ a ∧ b = a + 1 then [[.int a, .int b]] else []) := by
+  have h0 : checkMode [Tm.var v, Tm.int b] (modesOf "succ") 0 = .ok 0 := rfl
+  have h1 : checkMode [Tm.int a, Tm.var v] (modesOf "succ") 0 = .ok 1 := rfl
+  have h2 : checkMode [Tm.int a, Tm.int b] (modesOf "succ") 0 = .ok 2 := rfl
+  refine ⟨?_, ?_, ?_⟩
+  · by_cases c : 0 < b
+    · have : ¬ b ≤ 0 := by omega
+      simp [succ, h0, bind, Except.bind, pure, Except.pure, intVal, c, this]
+    · have : b ≤ 0 := by omega
+      simp [succ, h0, bind, Except.bind, pure, Except.pure, intVal, c, this]
+  · by_cases c : 0 ≤ a
+    · have : ¬ a < 0 := by omega
+      simp [succ, h1, bind, Except.bind, pure, Except.pure, intVal, c, this]
+    · have : a < 0 := by omega
+      simp [succ, h1, bind, Except.bind, pure, Except.pure, intVal, c, this]
+  · simp only [succ, h2, bind, Except.bind]
+    by_cases c1 : 0 ≤ a <;> by_cases c2 : b = a + 1 <;> simp [pure, Except.pure, intVal, c1, c2]
+
+/-- `plus/3`: in each mode the unique solution of `a + b = c` (or the check). -/
+theorem C16_plus3 (a b c v : Int) :
+    plus (.int a) (.int b) (.int c) = .ok (if a + b = c then [[.int a, .int b, .int c]] else []) ∧
+    plus (.int a) (.int b) (.var v) = .ok [[.int a, .int b, .int (a + b)]] ∧
+    plus (.int a) (.var v) (.int c) = .ok [[.int a, .int (c - a), .int c]] ∧
+    plus (.var v) (.int b) (.int c) = .ok [[.int (c - b), .int b, .int c]] := by
+  have h0 : checkMode [Tm.int a, Tm.int b, Tm.int c] (modesOf "plus") 0 = .ok 0 := rfl
+  have h1 : checkMode [Tm.int a, Tm.int b, Tm.var v] (modesOf "plus") 0 = .ok 1 := rfl
+  have h2 : checkMode [Tm.int a, Tm.var v, Tm.int c] (modesOf "plus") 0 = .ok 2 := rfl
+  have h3 : checkMode [Tm.var v, Tm.int b, Tm.int c] (modesOf "plus") 0 = .ok 3 := rfl
+  refine ⟨?_, ?_, ?_, ?_⟩
+  · by_cases e : a + b = c <;> simp [plus, h0, bind, Except.bind, pure, Except.pure, intVal, e]
+  · simp [plus, h1, bind, Except.bind, pure, Except.pure, intVal]
+  · simp [plus, h2, bind, Except.bind, pure, Except.pure, intVal]
+  · simp [plus, h3, bind, Except.bind, pure, Except.pure, intVal]
+/-- `length(+ProperList, -N)`: N is the number of elements. -/
+theorem C16_length_fixed (xs : List Tm) (v mv : Int) :
+    length (mkList xs nil) (.var v) mv = .ok [[mkList xs nil, .int xs.length]] := by
+  have hm : checkMode [mkList xs nil, Tm.var v] (modesOf "length") 0 = .ok 1 := by
+    have := isFixedList_mkList xs
+    simp [show modesOf "length" = ["LI", "Lv", "lI", "vI"] from by decide, checkMode, modeOk, modeTest, this, isIntegerPos, isVar]
+  simp [length, hm, bind, Except.bind, pure, Except.pure, listElements_mkList, unifySimple, isVar]
+
+/-- `length(-L, +N)`, `N ≥ 0`: L is a list of N pairwise distinct fresh variables. -/
+theorem C16_length_open (v mv : Int) (n : Nat) :
+    ∃ vs : List Tm, length (.var v) (.int n) mv = .ok [[mkList vs nil, .int n]] ∧ vs.length = n ∧
+      (∀ t ∈ vs, isVar t = true) ∧ vs.Pairwise (· ≠ ·) := by
+  refine ⟨(List.range n).map (fun (k : Nat) => Tm.var (mv - (k : Int))), ?_, by simp, ?_, ?_⟩
+  · have hm : checkMode [Tm.var v, Tm.int n] (modesOf "length") 0 = .ok 3 := rfl
+    have h : ¬ ((n : Int) < 0) := by omega
+    simp [length, hm, bind, Except.bind, pure, Except.pure, intVal, h]
+  · intro t ht
+    simp only [List.mem_map] at ht
+    obtain ⟨k, _, rfl⟩ := ht
+    rfl
+  · rw [List.pairwise_map]
+    refine List.Pairwise.imp ?_ List.pairwise_lt_range
+    intro a b hab e
+    injection e with e
+    omega
+
+/-- `functor(+T, -F, -A)`: name and arity of a compound; an atomic term is its own name with arity 0. -/
+theorem C16_functor_decompose (f : String) (as : List Tm) (c x y : Int) :
+    functor (.cmp f as) (.var x) (.var y) = .ok [[.cmp f as, .cmp f [], .int as.length]] ∧
+    functor (.int c) (.var x) (.var y) = .ok [[.int c, .int c, .int 0]] := by
+  constructor
+  · have hm : checkMode [Tm.cmp f as, Tm.var x, Tm.var y] (modesOf "functor") 0 = .ok 1 := rfl
+    simp [functor, hm, bind, Except.bind, pure, Except.pure, unifySimple, isVar, arity]
+  · have hm : checkMode [Tm.int c, Tm.var x, Tm.var y] (modesOf "functor") 0 = .ok 1 := rfl
+    simp [functor, hm, bind, Except.bind, pure, Except.pure, unifySimple, isVar, arity]
+
+/-- `functor(-T, +Name, +N)`: the most general term `Name(_, …, _)` with N arguments. -/
+theorem C16_functor_construct (f : String) (x : Int) (n : Nat) :
+    functor (.var x) (.cmp f []) (.int n) = .ok [[.cmp f (List.replicate n .anon), .cmp f [], .int n]] := by
+  have hm : checkMode [Tm.var x, Tm.cmp f [], Tm.int n] (modesOf "functor") 0 = .ok 0 := rfl
+  simp [functor, hm, bind, Except.bind, pure, Except.pure, intVal]
+
+/-- `arg(+N, +T, -A)`: the N-th argument (1-based) when `1 ≤ N ≤ arity`, no solution otherwise. -/
+theorem C16_arg (k : Int) (f : String) (as : List Tm) (x : Int) :
+    arg (.int k) (.cmp f as) (.var x) =
+      .ok (if 1 ≤ k ∧ k ≤ as.length then (match as[(k - 1).toNat]? with | some t => [[.int k, .cmp f as, t]] | none => []) else []) := by
+  have hm : checkMode [Tm.int k, Tm.cmp f as, Tm.var x] (modesOf "arg") 0 = .ok 0 := rfl
+  simp only [arg, hm, bind, Except.bind, intVal, args]
+  by_cases c1 : 1 ≤ k <;> by_cases c2 : k ≤ as.length
+  · have h1 : 0 ≤ k - 1 := by omega
+    have h2 : k - 1 < as.length := by omega
+    simp only [c1, c2, h1, h2, decide_true, Bool.and_self, if_true, and_self]
+    cases as[(k - 1).toNat]? <;> simp [pure, Except.pure, unifySimple, isVar]
+  · have h2 : ¬ (k - 1 < as.length) := by omega
+    simp [c1, c2, h2, pure, Except.pure]
+  · have h1 : ¬ (0 ≤ k - 1) := by omega
+    simp [c1, c2, pure, Except.pure]
+  · have h1 : ¬ (0 ≤ k - 1) := by omega
+    simp [c1, c2, pure, Except.pure]
+
+/-- `+T =.. -L`: `[Name | Args]`. -/
+theorem C16_univ_decompose (f : String) (as : List Tm) (x : Int) :
+    univ (.cmp f as) (.var x) = .ok [[.cmp f as, mkList (.cmp f [] :: as) nil]] := by
+  have hm : checkMode [Tm.cmp f as, Tm.var x] (modesOf "split_call") 0 = .ok 1 := rfl
+  simp [univ, hm, bind, Except.bind, pure, Except.pure, unifySimple, isVar, args]
+
+/-- `-T =.. +[Name | Args]` rebuilds the term that `=..` decomposes (for a compound). -/
+theorem C16_univ_roundtrip (f : String) (a : Tm) (as : List Tm) (x : Int) :
+    univ (.var x) (mkList (.cmp f [] :: a :: as) nil) = .ok [[.cmp f (a :: as), mkList (.cmp f [] :: a :: as) nil]] := by
+  have hf := isFixedList_mkList (.cmp f [] :: a :: as)
+  have hm : checkMode [Tm.var x, mkList (.cmp f [] :: a :: as) nil] (modesOf "split_call") 0 = .ok 0 := by
+    simp [show modesOf "split_call" = ["vL", "nv", "nl"] from by decide, checkMode, modeOk, modeTest, hf, isVar]
+  have he := listElements_mkList (.cmp f [] :: a :: as)
+  simp [univ, hm, bind, Except.bind, pure, Except.pure, he, isAtom, isTerm, isVar, isConstant, isConstantT, arity]
+/-- The type tests classify terms as Prolog does (strings, which ISO Prolog does not have, only for `atomic`). -/
+theorem C16_typetests (t : Tm) (h : quotedMinus t = false) :
+    tVar t = decide (Spec.kind t = .variable) ∧ tNonvar t = decide (Spec.kind t ≠ .variable) ∧
+    tAtom t = decide (Spec.kind t = .atom) ∧ tInteger t = decide (Spec.kind t = .integer) ∧
+    tFloat t = decide (Spec.kind t = .float) ∧
+    tNumber t = decide (Spec.kind t = .integer ∨ Spec.kind t = .float) ∧
+    tCompound t = decide (Spec.kind t = .compound) ∧
+    tCallable t = decide (Spec.kind t = .atom ∨ Spec.kind t = .compound) ∧
+    (Spec.kind t ≠ .string → tAtomic t = decide (Spec.kind t = .atom ∨ Spec.kind t = .integer ∨ Spec.kind t = .float)) := by
+  obtain ⟨h1, h2⟩ := negs_false t h
+  cases t with
+  | var n => simp [tVar, tNonvar, tAtom, tInteger, tFloat, tNumber, tCompound, tCallable, tAtomic, isVar, isAtom, isTerm, isInteger, isFloat, isNumber, isIntegerPos, isFloatPos, isCompound, isConstant, isConstantT, Spec.kind, h1, h2, arity]
+  | anon => simp [tVar, tNonvar, tAtom, tInteger, tFloat, tNumber, tCompound, tCallable, tAtomic, isVar, isAtom, isTerm, isInteger, isFloat, isNumber, isIntegerPos, isFloatPos, isCompound, isConstant, isConstantT, Spec.kind, h1, h2, arity]
+  | int i => simp [tVar, tNonvar, tAtom, tInteger, tFloat, tNumber, tCompound, tCallable, tAtomic, isVar, isAtom, isTerm, isInteger, isFloat, isNumber, isIntegerPos, isFloatPos, isCompound, isConstant, isConstantT, Spec.kind, h1, h2, arity]
+  | flt q => simp [tVar, tNonvar, tAtom, tInteger, tFloat, tNumber, tCompound, tCallable, tAtomic, isVar, isAtom, isTerm, isInteger, isFloat, isNumber, isIntegerPos, isFloatPos, isCompound, isConstant, isConstantT, Spec.kind, h1, h2, arity]
+  | str s => simp [tVar, tNonvar, tAtom, tInteger, tFloat, tNumber, tCompound, tCallable, tAtomic, isVar, isAtom, isTerm, isInteger, isFloat, isNumber, isIntegerPos, isFloatPos, isCompound, isConstant, isConstantT, Spec.kind, h1, h2, arity]
+  | cmp f as =>
+    cases as with
+    | nil => simp [tVar, tNonvar, tAtom, tInteger, tFloat, tNumber, tCompound, tCallable, tAtomic, isVar, isAtom, isTerm, isInteger, isFloat, isNumber, isIntegerPos, isFloatPos, isCompound, isConstant, isConstantT, Spec.kind, h1, h2, arity]
+    | cons a as => simp [tVar, tNonvar, tAtom, tInteger, tFloat, tNumber, tCompound, tCallable, tAtomic, isVar, isAtom, isTerm, isInteger, isFloat, isNumber, isIntegerPos, isFloatPos, isCompound, isConstant, isConstantT, Spec.kind, h1, h2, arity]
+
+/-- `is_list/1` also accepts partial lists (pinned by test/00_builtins.pl `is_list_002`): a known finding. -/
+theorem C16_is_list_refuted :
+    tIsList (.cmp "." [.cmp "a" [], .var 0]) = true ∧ Spec.properList (.cmp "." [.cmp "a" [], .var 0]) = false := by
+  constructor <;> decide
+
+example : quotedMinus (.cmp "-" [.int 1]) = false := by decide
+example : (between (.int 1) (.int 3) (.var 0)) = .ok [[.int 1, .int 3, .int 1], [.int 1, .int 3, .int 2], [.int 1, .int 3, .int 3]] := rfl
+example : succ (.var 0) (.int 0) = .ok [] := rfl
+example : py_intdiv_2 (.int (-7)) (.int 2) = .ok (.int (-3)) := rfl
+example : ∃ q, py_sign_1 (.flt (-2)) = .ok (.flt q) ∧ q = -1 := ⟨_, C16_sign_float _, by decide⟩
 end ProbLogProofs.C16
